@@ -464,3 +464,24 @@ Lemma isolation_example_proof :
   let evs := [(0%nat, 1); (1%nat, 7); (0%nat, 2); (1%nat, 9)] in
   matches_of (run (fun _ => true) evs) 1%nat = [7; 9] /\ matches_of (run (fun _ => true) evs) 0%nat = [1; 2].
 Proof. vm_compute. split; reflexivity. Qed.
+
+
+(* the room test of every iterator admits exactly the stores that follow it: with p stores the last one writes
+   items[sp + p - 1], which lies inside the buffer iff sp + p <= capacity (p regenerated from exec.c) *)
+Lemma Forall2_map_r {A B} (P : A -> B -> Prop) (f : A -> B) (l : list A) :
+  Forall (fun x => P x (f x)) l -> Forall2 P l (map f l).
+Proof. induction 1; simpl; constructor; auto. Qed.
+
+Lemma vm_iter_room_is_pushes : map (fun c : Z * cmpop => fst c + 1) vm_iter_checks = vm_iter_pushes.
+Proof. reflexivity. Qed.
+
+Lemma vm_iter_room_exact_proof :
+  Forall2 (fun chk p => forall sp cap, vm_iter_accepts chk sp cap = true <-> sp + p <= cap) vm_iter_checks vm_iter_pushes.
+Proof.
+  rewrite <- vm_iter_room_is_pushes.
+  apply (Forall2_map_r (fun chk p => forall sp cap, vm_iter_accepts chk sp cap = true <-> sp + p <= cap)).
+  exact vm_iter_exact_proof.
+Qed.
+
+Lemma vm_iter_pushes_example : vm_iter_pushes <> [] /\ Forall (fun p => 2 <= p) vm_iter_pushes.
+Proof. split; [discriminate|]. unfold vm_iter_pushes. repeat constructor; discriminate. Qed.
